@@ -36,6 +36,10 @@ type Script struct {
 	GCThreshold float32 `json:"gc_threshold"`
 	Groups      []Group `json:"groups"`
 	Ops         []Op    `json:"ops"`
+	// generator statistics (not part of the script's meaning)
+	WholeSessionDeletes int `json:"whole_session_deletes,omitempty"`
+	ReplayRewrites      int `json:"replay_rewrites,omitempty"`
+	HeadCuts            int `json:"head_cuts,omitempty"`
 }
 
 func (s *Script) Shape() string {
@@ -80,6 +84,10 @@ type GenOpts struct {
 	FileSizes   []int64 // candidates
 	ChanOps     bool    // (C02) channel create/delete ops — not used by the generator yet
 	DataOnly    bool    // generate data-only sessions against a stored index
+	// Rewrite biases the script towards delete -> write the same stretch again -> delete
+	// again: whole-session deletes, refills with the very same timestamps (optionally
+	// extended by a head that is cut off again), deletes after every session.
+	Rewrite bool
 	GapRewrite  bool    // rewrite into gaps freed by deletes
 	VarTypes    bool
 	Types       []string // when set, data channel types are drawn from this list only
@@ -116,20 +124,25 @@ type session struct {
 }
 
 type gen struct {
-	r      *prng.R
-	o      GenOpts
-	s      *Script
-	sim    *Model // what will be committed if everything succeeds
-	sess   []*session
-	gaps   map[int][][2]int64 // per group: fully freed ranges
-	nextW  int
-	window []int
-	used   map[int]bool
+	r    *prng.R
+	o    GenOpts
+	s    *Script
+	sim  *Model // what will be committed if everything succeeds
+	sess []*session
+	gaps map[int][][2]int64 // per group: fully freed ranges
+	// index stamps a freed range held before its delete: a gap rewrite may replay exactly
+	// these (same domain start and end as before, new values of other lengths)
+	gapStamps map[[2]int64][]int64
+	delPts    map[int][]int64    // per group: endpoints of earlier deletes (re-used later)
+	cuts      map[int][][2]int64 // per group: [first stamp, old first stamp) of a head-extended replay
+	nextW     int
+	window    []int
+	used      map[int]bool
 }
 
 // Gen produces a legal script. Every random choice comes from r.
 func Gen(r *prng.R, o GenOpts) *Script {
-	g := &gen{r: r, o: o, s: &Script{}, sim: NewModel(), gaps: map[int][][2]int64{}, used: map[int]bool{}}
+	g := &gen{r: r, o: o, s: &Script{}, sim: NewModel(), gaps: map[int][][2]int64{}, gapStamps: map[[2]int64][]int64{}, delPts: map[int][]int64{}, cuts: map[int][][2]int64{}, used: map[int]bool{}}
 	g.s.FileSize = prng.Pick(r, o.FileSizes)
 	g.s.GCThreshold = []float32{1e-9, 0.01, 0.2, 0.5, 1}[r.Intn(5)]
 	ng := r.Range(1, o.MaxGroups)
@@ -247,7 +260,7 @@ func (g *gen) planSession(i int) *session {
 	if g.o.DataOnly && r.Chance(1, 3) {
 		kind = "dataonly"
 	}
-	if g.o.GapRewrite && len(g.gaps[gi]) > 0 && r.Chance(1, 2) {
+	if g.o.GapRewrite && len(g.gaps[gi]) > 0 && (r.Chance(1, 2) || g.o.Rewrite) {
 		kind = "gap"
 	}
 	g.used[g.window[i%len(g.window)]] = true
@@ -321,6 +334,7 @@ func (g *gen) planSession(i int) *session {
 	}
 
 	var start, limit int64
+	var replay []int64
 	if kind == "gap" {
 		gl := g.gaps[gi]
 		k := r.Intn(len(gl))
@@ -340,6 +354,9 @@ func (g *gen) planSession(i int) *session {
 		}
 		start = gp[0] + 1 + r.I64n((gp[1]-gp[0])/2)
 		limit = gp[1]
+		if old := g.gapStamps[[2]int64{gp[0], gp[1]}]; len(old) > 0 && old[0] >= gp[0] && old[len(old)-1] < gp[1] && (r.Chance(1, 2) || g.o.Rewrite) {
+			replay = old
+		}
 	} else {
 		w := int64(g.window[i%len(g.window)])
 		start = T0 + w*Window
@@ -358,8 +375,58 @@ func (g *gen) planSession(i int) *session {
 		total += n
 	}
 	ts := g.genStamps(start, total, limit)
+	if len(replay) > 0 {
+		ts = append([]int64{}, replay...)
+		g.s.ReplayRewrites++
+		// extend the replay by a few earlier stamps when the stretch before it is free
+		// (sessions own their window; nothing else can have been written there)
+		if ws := T0 + ((ts[0]-T0)/Window)*Window; ts[0]-ws >= 2 && (r.Chance(2, 3) || g.o.Rewrite) {
+			lo := ts[0] - 1 - r.I64n(min64(ts[0]-ws-1, 40))
+			free := true
+			for _, c := range append([]ChanSpec{grp.Index}, grp.Data...) {
+				if g.sim.HasAny(c.Key, ws, ts[0]) {
+					free = false
+				}
+			}
+			if free {
+				var head []int64
+				for t := lo; t < ts[0] && len(head) < 4; t += 1 + r.I64n(3) {
+					head = append(head, t)
+				}
+				g.cuts[gi] = append(g.cuts[gi], [2]int64{head[0], ts[0]})
+				ts = append(head, ts...)
+				if len(chunkLens) == 1 {
+					chunkLens = []int{len(ts)}
+				} else {
+					chunkLens = append([]int{len(head)}, chunkLens...)
+				}
+			}
+		}
+		if r.Chance(1, 3) { // the same layout as well: one chunk, one commit
+			chunkLens = []int{len(ts)}
+		} else {
+			chunkLens = nil
+			for rem := len(ts); rem > 0; {
+				n := prng.Pick(r, chunkSizes)
+				if n > rem {
+					n = rem
+				}
+				chunkLens = append(chunkLens, n)
+				rem -= n
+			}
+		}
+	}
 	if len(ts) == 0 {
 		return nil
+	}
+	if kind == "gap" {
+		// the stretch must still be free: an earlier refill (its head reaches outside its
+		// own gap) or an overlapping older gap may have been written since
+		for _, c := range append([]ChanSpec{grp.Index}, grp.Data...) {
+			if g.sim.HasAny(c.Key, ts[0], ts[len(ts)-1]+1) {
+				return nil
+			}
+		}
 	}
 	// channels: index + subset of data (usually all)
 	chans := []uint32{grp.Index.Key}
@@ -435,7 +502,7 @@ func (g *gen) emitWriterChunks(s *session, chans []uint32, ts []int64, lens []in
 func (g *gen) maintenance() *session {
 	r := g.r
 	m := &session{id: -1, group: -1}
-	if g.o.Deletes && r.Chance(1, 2) {
+	if g.o.Deletes && (r.Chance(1, 2) || g.o.Rewrite) {
 		nd := r.Range(1, 3)
 		for i := 0; i < nd; i++ {
 			if op, ok := g.deleteOp(); ok {
@@ -476,6 +543,11 @@ func (g *gen) deleteOp() (Op, bool) {
 	}
 	sort.Slice(pts, func(i, j int) bool { return pts[i] < pts[j] })
 	pick := func() int64 {
+		// the same boundary as an earlier delete, e.g. the same range again after the
+		// stretch was written anew
+		if hs := g.delPts[gi]; len(hs) > 0 && r.Chance(1, 4) {
+			return prng.Pick(r, hs)
+		}
 		t := prng.Pick(r, pts)
 		switch r.Intn(6) {
 		case 0:
@@ -503,6 +575,32 @@ func (g *gen) deleteOp() (Op, bool) {
 	}
 	var chans []uint32
 	mode := r.Intn(5)
+	if cs := g.cuts[gi]; len(cs) > 0 && (r.Chance(1, 2) || g.o.Rewrite) {
+		// cut the head a replayed session was extended by: what is left starts and ends
+		// exactly where the session it replaced did
+		k := r.Intn(len(cs))
+		a, b = cs[k][0], cs[k][1]
+		g.cuts[gi] = append(cs[:k:k], cs[k+1:]...)
+		if r.Bool() {
+			mode = 4
+		}
+		g.s.HeadCuts++
+	} else if g.o.GapRewrite && (r.Chance(1, 6) || (g.o.Rewrite && r.Chance(1, 2))) {
+		// exactly what one writer session of this group committed, index and data: the
+		// freed range can then be refilled with the very same timestamps
+		var cands []*session
+		for _, s := range g.sess {
+			if s.group == gi && !s.cut && len(s.ts) > 0 && g.sim.HasAny(grp.Index.Key, s.ts[0], s.ts[len(s.ts)-1]+1) {
+				cands = append(cands, s)
+			}
+		}
+		if len(cands) > 0 {
+			s := prng.Pick(r, cands)
+			a, b = s.ts[0], s.ts[len(s.ts)-1]+1
+			mode = 4
+			g.s.WholeSessionDeletes++
+		}
+	}
 	switch {
 	case mode <= 2: // data channels only
 		for _, d := range grp.Data {
@@ -523,6 +621,7 @@ func (g *gen) deleteOp() (Op, bool) {
 		prng.Shuffle(r, chans)
 	}
 	op := Op{Kind: "delete", Chans: chans, A: a, B: b}
+	g.delPts[gi] = append(g.delPts[gi], a, b)
 	// sim
 	hasIdx := false
 	for _, k := range chans {
@@ -544,6 +643,12 @@ func (g *gen) deleteOp() (Op, bool) {
 	}
 	if !refused {
 		idxRemoved := 0
+		var idxBefore []int64
+		for _, t := range g.sim.Stamps(grp.Index.Key) {
+			if t >= a && t < b {
+				idxBefore = append(idxBefore, t)
+			}
+		}
 		for _, k := range chans {
 			n := g.sim.Delete(k, a, b)
 			if k == grp.Index.Key {
@@ -562,8 +667,16 @@ func (g *gen) deleteOp() (Op, bool) {
 			// is (rightly) refused as overlapping existing data.
 			if len(chans) == len(grp.Data)+1 && b-a > 8 && idxRemoved > 0 {
 				g.gaps[gi] = append(g.gaps[gi], [2]int64{a, b})
+				g.gapStamps[[2]int64{a, b}] = idxBefore
 			}
 		}
 	}
 	return op, true
+}
+
+func min64(a, b int64) int64 {
+	if a < b {
+		return a
+	}
+	return b
 }
